@@ -41,6 +41,8 @@ func init() {
 			{ID: "C01.16", Desc: "the Age value is the first member of the field", Run: func(c *Ctx) { ruleAgeFirstMember(c, "C01.16") }, MinSites: 1},
 			{ID: "C01.17", Desc: "Expires and the heuristic apply only when no max-age directive is present", Run: func(c *Ctx) { ruleExplicitExpiryByPresence(c, "C01.17") }, MinSites: 1},
 			{ID: "C01.18", Desc: "the heuristic lifetime is rounded down", Run: func(c *Ctx) { ruleHeuristicRoundedDown(c, "C01.18") }, MinSites: 1},
+			{ID: "C01.19", Desc: "directive names are case-folded before they are compared with earlier occurrences (max-age=0, Max-Age=3600 uses the first)", Run: func(c *Ctx) { ruleC12_1(c); ruleC12_11(c); renameRule(c, "C12.1", "C01.19"); renameRule(c, "C12.11", "C01.19") }, MinSites: 2},
+			{ID: "C01.20", Desc: "the stale-while-revalidate window is measured with the current age", Run: func(c *Ctx) { ruleSWRWindowAge(c, "C01.20") }, MinSites: 1},
 		},
 	})
 }
